@@ -83,6 +83,9 @@ def make_region(spec):
         verts = lambda pts: SkyCoord([(lon + a * s) for a, b in pts] * u.deg, [(lat + b * s) for a, b in pts] * u.deg, frame=fr)    # noqa
         unit = getattr(u, su)
         q = lambda v: (v / DEG[su]) * unit    # noqa   (v in degrees -> quantity in the spec's unit)
+        if spec.get('qtype') == 'angle':
+            from astropy.coordinates import Angle
+            q = lambda v: Angle((v / DEG[su]) * unit)    # noqa   (the same size as an Angle, the Quantity subclass for angles)
         K = lambda n: getattr(R, n + 'SkyRegion')    # noqa
     if shape == 'circle':
         return K('Circle')(c, q(s), **kw)
@@ -224,6 +227,10 @@ def check_single(res, spec, precision, what='geom'):
         res.violation(ID, 'roundtrip_tags', case, f'tags {tags0!r} came back as {tags1!r}', tags0, {'got': tags1, 'text': text})
     if inc0 != inc1:
         res.violation(ID, 'roundtrip_include', case, f'include sense {inc0} came back as {inc1}', inc0, {'got': inc1, 'text': text})
+    extra = sorted(set(P[0].meta) - set(orig.meta) - {'include'})
+    if extra:
+        res.violation(ID, 'roundtrip_meta_gained', case, f'the region read back has metadata the original does not have: '
+                                                          f'{ {k: P[0].meta[k] for k in extra} } (original meta {dict(orig.meta)})', dict(orig.meta), {'got': dict(P[0].meta), 'text': text})
     _visual_expect(res, case, orig, P[0], text)
     # fixed point: serialise the parsed region (same precision, and the default) and parse again
     for prec2 in sorted({precision, 8} if precision <= 8 else {precision}):
@@ -320,7 +327,7 @@ def _visual_expect(res, case, orig, back, text):
 
 
 # ---------------------------------------------------------- meta vocabulary --
-TEXTS = ['plain', '', 'NGC 1234\u2028core \x85 n', 'page1\x0cpage2', 'with space', 'semi;colon', 'hash#tag', 'eq=sign', "it's", 'say "hi"', 'MiXed Case 42']
+TEXTS = ['plain', '', 'sky background level', 'NGC 1234\u2028core \x85 n', 'page1\x0cpage2', 'with space', 'semi;colon', 'hash#tag', 'eq=sign', "it's", 'say "hi"', 'MiXed Case 42']
 TAGSETS = [None, ['g1'], ['group 1', 'Group=2#x']]
 INCLUDES = ['absent', True, False, 1, 0]
 VISUALS = [
@@ -608,6 +615,11 @@ def geom_cases(tier):
                         for p in precs:
                             if feasible(spec, p):
                                 out.append([spec, p])
+                        if frame != 'image' and shape not in ('point', 'text', 'line', 'polygon') and pos == poss[0] and ang == (angles if has_angle else [0.0])[0]:
+                            # angular sizes given as Angle objects instead of plain Quantities
+                            sa = dict(spec, qtype='angle')
+                            if feasible(sa, 8):
+                                out.append([sa, 8])
     return out
 
 
